@@ -139,6 +139,8 @@ def run(prop, cfg, tier, seed, known):
                 status = "FAILED"
                 if kf:
                     out["known_hits"].append((kf[0], {"msg": fc[0]}))
+                    out["obligations"] -= r["checks"][0]   # the listed failing checks are reported as KNOWN-FINDING, not as undischarged obligations
+                    status = "known-finding"
                 else:
                     vals, pb_out = playback(h)
                     v = {"engine": "kani", "function": short, "file": "kani/src", "src_line": 0,
